@@ -8,6 +8,7 @@ import Sonic.Model.Stack
 import Sonic.Model.Skip
 import Sonic.Model.OnDemand
 import Sonic.Spec.Json
+import Sonic.Model.Number
 
 /-!
 # Source constants = model constants
@@ -52,10 +53,18 @@ theorem page_consts :
 
 /-- C04: thresholds of `parseNumber` and the fixed-point logarithms (Model/Number.lean, NormalFast.lean, EiselLemire.lean, BigDecimal.lean) -/
 theorem number_consts :
-    numLongestDigits = 17 ∧ numMaxIntDigits = 19 ∧ numExpCap = 10000 ∧ numFastManBits = 52 ∧
+    numLongestDigits = 17 ∧ numMaxIntDigits = 19 ∧ numExpCap = 1000000000000000 ∧ numExp10Clamp = 100000 ∧
+    decExpCap = 1000000000000000 ∧ decDpClamp = 1000000 ∧
+    (∀ x : Int, Sonic.Model.Number.clampExp10 x =
+      if x > (numExp10Clamp : Int) then (numExp10Clamp : Int) else if x < -(numExp10Clamp : Int) then -(numExp10Clamp : Int)
+      else x) ∧
+    (∀ x : Int, Sonic.Model.BigDecimal.clampDp x =
+      if x > (decDpClamp : Int) then (decDpClamp : Int) else if x < -(decDpClamp : Int) then -(decDpClamp : Int) else x) ∧
+    numFastManBits = 52 ∧
     numFastExpA + numFastExpB = 37 ∧ numFastExpNeg = 22 ∧ numNfLoA - numNfLoB = 307 ∧ numNfHiA - numNfHiB = 288 ∧
     (nfLog2Mul, nfLog2Sub, nfLog2Shift) = (217706, 4128768, 16) ∧ (elLog2Mul, elLog2Shift) = (217706, 16) ∧
-    decimalMaxDigits = 800 ∧ decimalMaxShift = 60 := ⟨rfl, rfl, rfl, rfl, rfl, rfl, rfl, rfl, rfl, rfl, rfl, rfl⟩
+    decimalMaxDigits = 800 ∧ decimalMaxShift = 60 :=
+  ⟨rfl, rfl, rfl, rfl, rfl, rfl, fun _ => rfl, fun _ => rfl, rfl, rfl, rfl, rfl, rfl, rfl, rfl, rfl, rfl⟩
 
 /-- C07: Schubfach exponent arithmetic and the format switch (Model/Ftoa.lean `kOf`, `hOf`) -/
 theorem ftoa_consts :
